@@ -2158,7 +2158,7 @@ _G_LOADER = {"int": "int_strict_coercion_loader", "str": "str_strict_coercion_lo
              "float": "float_strict_coercion_loader", "Decimal": "decimal_strict_coercion_loader", "bytes": "bytes_base64_loader",
              "Any": "<lambda>", "Book": "model_loader_Book"}
 _G_DUMPER = {"Decimal": "__str__", "bytes": "bytes_base64_dumper", "Book": "model_dumper_Book"}
-_G_TOP = {"List": "iter_", "Dict": "dict_", "Optional": "optional", "Union": "union"}
+_G_TOP = {"List": "iter_", "Dict": "dict_", "Optional": "optional", "Union": "union", "list": "iter_", "dict": "dict_"}
 
 
 def _g_subst(expr: str, pm: Dict[str, str]) -> str:
@@ -2191,15 +2191,63 @@ def _g_resolve(classes: Dict[str, Tuple], name: str, args: List[str]) -> Dict[st
         args = [_G_IMPLICIT[p] for p in params]
     pm = dict(zip(params, args))
     out: Dict[str, str] = {}
+    mro = _g_mro(classes, name)
     for bname, bargs in reversed(bases):
-        out.update(_g_resolve(classes, bname, [_g_subst(a, pm) for a in bargs]))
+        sub = _g_resolve(classes, bname, [_g_subst(a, pm) for a in bargs])
+        bmro = _g_mro(classes, bname)
+        for f, t in sub.items():
+            # the annotation of f is the one of the first class of the MRO that declares it; it is bound through the base
+            # that reaches that class (diamonds: D(B[int], C[int]) with C overriding a field of the common root)
+            definer = next((c for c in mro[1:] if f in classes[c][2]), None)
+            if definer is None or definer in bmro:
+                out[f] = t
     for f, t in fields.items():
         out[f] = _g_subst(t, pm)
     return out
 
 
+def _g_mro(classes: Dict[str, Tuple], name: str) -> List[str]:
+    """C3 linearisation over the spec"""
+    bases = [b for b, _a in classes[name][1]]
+    seqs = [_g_mro(classes, b) for b in bases] + [list(bases)]
+    out = [name]
+    while any(seqs):
+        seqs = [s for s in seqs if s]
+        for s in seqs:
+            cand = s[0]
+            if not any(cand in t[1:] for t in seqs):
+                break
+        else:
+            raise AnalysisError(f"generics spec {name}: inconsistent hierarchy")
+        out.append(cand)
+        seqs = [[x for x in s if x != cand] for s in seqs]
+    return out
+
+
+def _g_pipe(texpr: str) -> str:
+    """PEP 604 spelling -> typing spelling: `A | None` is Optional[A], `A | B` is Union[A, B] (top level only)"""
+    parts, depth, cur = [], 0, ""
+    for ch in texpr:
+        if ch == "[":
+            depth += 1
+        elif ch == "]":
+            depth -= 1
+        if ch == "|" and depth == 0:
+            parts.append(cur.strip())
+            cur = ""
+        else:
+            cur += ch
+    parts.append(cur.strip())
+    if len(parts) == 1:
+        return texpr.strip()
+    rest = [p for p in parts if p != "None"]
+    if len(rest) == 1 and len(parts) == 2:
+        return f"Optional[{rest[0]}]"
+    return f"Union[{', '.join(parts)}]"
+
+
 def _g_leaves(texpr: str, table: Dict[str, str]) -> List[str]:
-    texpr = texpr.strip()
+    texpr = _g_pipe(texpr.strip())
     mt = re.fullmatch(r"(\w+)\[(.*)\]", texpr)
     if mt:
         out: List[str] = []
@@ -2243,6 +2291,7 @@ def c16_checks(repo: Repo, tier: str, res: CheckResult, seed: int) -> None:
                                 f"no {what} for {q} ({r['spec']}): {got['error']}", 0))
                 continue
             for f, texpr in want.items():
+                texpr = _g_pipe(texpr)
                 n_fields += 1
                 b = got["bindings"].get(f"{what}_{f}")
                 flat = _g_flat(b) if b is not None else []
@@ -2255,6 +2304,7 @@ def c16_checks(repo: Repo, tier: str, res: CheckResult, seed: int) -> None:
                 if what == "dumper":
                     got_leaves = [x for x in got_leaves if x != "<lambda>"]
                 ok = got_leaves == exp_leaves
+                texpr = _g_pipe(texpr)
                 top_kw = _G_TOP.get(texpr.split("[")[0]) if "[" in texpr else None
                 if ok and top_kw and what == "loader" and not (flat and top_kw in flat[0]):
                     ok = False
